@@ -43,6 +43,10 @@ pub struct RunSpec {
     /// extra stdin payload appended after the script for the Stdin front-end; for the other
     /// front-ends this is the whole content of simulated stdin
     pub stdin_extra: String,
+    /// go through brush-shell's entry.rs (argument parsing, instantiate_shell, run_in_shell)
+    /// instead of calling the front-end functions directly
+    #[serde(default)]
+    pub via_entry: bool,
 }
 
 impl RunSpec {
@@ -57,6 +61,7 @@ impl RunSpec {
             args: vec![],
             needs_dir: false,
             stdin_extra: String::new(),
+            via_entry: false,
         }
     }
 }
@@ -266,6 +271,73 @@ pub async fn build_shell(spec: &RunSpec, dir: &PathBuf, stdin: &SharedStdin) -> 
     b.build().await
 }
 
+/// Command line for brush-shell's entry point equivalent to what `build_shell` configures.
+fn entry_args(spec: &RunSpec, dir: &PathBuf) -> Vec<String> {
+    let mut a: Vec<String> = vec!["brush".into(), "--norc".into(), "--noprofile".into(), "--no-config".into(), "--noenv".into(), "--input-backend".into(), "minimal".into()];
+    for o in &spec.set_options {
+        a.push("-o".into());
+        a.push(o.clone());
+    }
+    for o in &spec.shopt_options {
+        a.push("-O".into());
+        a.push(o.clone());
+    }
+    match spec.front_end {
+        FrontEnd::DashC => {
+            a.push("-c".into());
+            a.push(spec.script.clone());
+            if !spec.args.is_empty() {
+                a.push("brush".into());
+                a.extend(spec.args.iter().cloned());
+            }
+        }
+        FrontEnd::Source => {
+            a.push("-c".into());
+            a.push("source ./prog.sh".into());
+        }
+        FrontEnd::Eval => {
+            a.push("-c".into());
+            a.push("eval \"$PROG\"".into());
+        }
+        FrontEnd::ScriptFile => {
+            a.push(dir.join("prog.sh").to_string_lossy().to_string());
+            a.extend(spec.args.iter().cloned());
+        }
+        FrontEnd::Stdin => {
+            a.push("-s".into());
+            a.extend(spec.args.iter().cloned());
+        }
+    }
+    a
+}
+
+struct EntrySetup {
+    stdin: SharedStdin,
+    dir: PathBuf,
+    prog: Option<String>,
+}
+
+impl brush_shell::entry::VerifSetup for EntrySetup {
+    fn setup<SE: ShellExtensions>(self, shell: &mut Shell<SE>) {
+        let mut extra = HashMap::new();
+        crate::builtins::register::<SE>(&mut extra);
+        for (name, reg) in extra {
+            shell.register_builtin(&name, reg);
+        }
+        let fds: Vec<(brush_core::ShellFd, OpenFile)> = vec![
+            (0, OpenFile::Stream(Box::new(self.stdin.clone()))),
+            (1, OpenFile::Stream(Box::new(SimSink(1)))),
+            (2, OpenFile::Stream(Box::new(SimSink(2)))),
+        ];
+        shell.replace_open_files(fds.into_iter());
+        let _ = shell.set_working_dir(&self.dir);
+        let _ = shell.env_mut().unset("OLDPWD");
+        if let Some(p) = self.prog {
+            let _ = shell.env_mut().set_global("PROG", brush_core::ShellVariable::new(p));
+        }
+    }
+}
+
 /// Hook for checks that want to look at the final shell before it is dropped.
 pub type Inspect = fn(&SimShell) -> serde_json::Value;
 
@@ -335,6 +407,20 @@ pub fn run_with(spec: &RunSpec, inspect: Option<Inspect>) -> RunResult {
     let body = std::panic::AssertUnwindSafe(|| {
         rt.block_on(async move {
             let stdin = SharedStdin(Arc::new(Mutex::new(BufReader::with_capacity(spec2.cfg.stdin_buf.max(1), SimStdin))));
+            if spec2.via_entry {
+                let mut out = Out { status: None, result_code: None, fe_err: None, res: None, snap: None };
+                let mut backend = SimBackend { stdin: stdin.clone() };
+                let setup = EntrySetup { stdin: stdin.clone(), dir: dir2.clone(), prog: if spec2.front_end == FrontEnd::Eval { Some(spec2.script.clone()) } else { None } };
+                match brush_shell::entry::verif_run(entry_args(&spec2, &dir2), setup, &mut backend).await {
+                    Ok(code) => out.status = Some(code),
+                    Err(e) => out.fe_err = Some(format!("{e}")),
+                }
+                drop(backend);
+                world::with(|w| w.main_done = true);
+                drop(stdin);
+                world::wait_all();
+                return out;
+            }
             let shell = match build_shell(&spec2, &dir2, &stdin).await {
                 Ok(s) => s,
                 Err(e) => {
